@@ -136,15 +136,18 @@ impl PnpmWorkspaceParser {
             return None;
         }
 
-        let start_offset = value_node.start_byte();
-        let end_offset = value_node.end_byte();
+        // White space that the node carries around the value (e.g. U+2028) is not part of it
+        let lead = raw_text.len() - raw_text.trim_start().len();
+        let start_offset = value_node.start_byte() + lead;
+        let end_offset = start_offset + trimmed.len();
         let start_point = value_node.start_position();
+        let start_column = start_point.column + lead;
 
         // Adjust offsets for quotes (same approach as package_json.rs)
         let (adjusted_start, adjusted_end, adjusted_column) = if has_quotes {
-            (start_offset + 1, end_offset - 1, start_point.column + 1)
+            (start_offset + 1, end_offset - 1, start_column + 1)
         } else {
-            (start_offset, end_offset, start_point.column)
+            (start_offset, end_offset, start_column)
         };
 
         Some(PackageInfo {
